@@ -279,6 +279,19 @@ def check_identity(rec, adapter, c, kind, jparam, X, label, cuts, via=False):
                 g1, e1 = evaluate(sc, [cut])
                 if e1 is not None or g1.shape != (1, c["q"]) or not close(g1[0], v):
                     bad = (cut, v, g1, e1, [list(cut)])
+    if bad is None and len(ok_cuts) >= 2:
+        # batch independence: other batch compositions (first cut repeated at the end; reversed order) give the same rows
+        for order_name, idx in (("first-repeated-last", list(range(len(ok_cuts))) + [0]), ("reversed", list(range(len(ok_cuts) - 1, -1, -1)))):
+            g2, e2 = evaluate(sc, [ok_cuts[i] for i in idx])
+            if e2 is not None or g2.shape != (len(idx), c["q"]):
+                bad = (ok_cuts[idx[0]], exp[idx[0]], g2, e2, [list(ok_cuts[i]) for i in idx])
+                break
+            for r, i in enumerate(idx):
+                if not close(g2[r], exp[i]):
+                    bad = (ok_cuts[i], exp[i], g2[r:r + 1], None, [list(ok_cuts[k]) for k in idx])
+                    break
+            if bad is not None:
+                break
     for cut, v in zip(ok_cuts, exp):
         rec.case(("id", comp, kind, via, label, cut), bool(np.any(np.abs(v) > 1e-9)),
                  {"composition": comp, "param": jparam, "data": label, "cut": list(cut), "expected": v} if sum(cut) % 7 == 0 else None)
